@@ -449,6 +449,9 @@ where
         }
         let Some(row) = crate::replay::parse_row(&line) else { continue };
         if let Some(s) = row.get("s") {
+            if pre.len() > 1_500_000 {
+                continue;
+            }
             pre.insert(serde_json::to_string(s).unwrap(), (row["fa"].clone(), row["fb"].clone()));
             continue;
         }
